@@ -97,6 +97,8 @@ SrcInner(c, ny, nx, j, i) ==
       [] k = "mirx" -> RndVal(c.src[2], j, (nx - i) % nx)
       [] k = "miry" -> RndVal(c.src[2], (ny - j) % ny, i)
       [] k = "rndT" -> RndVal(c.src[2], i, j)
+      [] k = "mircx" -> RndVal(c.src[2], j, (nx - 1) - i)
+      [] k = "mircy" -> RndVal(c.src[2], (ny - 1) - j, i)
       [] OTHER      -> 0
 \* c.emb = <<py, px, ny0, nx0>>: the pattern of size ny0 x nx0 embedded at offset (py, px) in zeros; ny0 = 0: no embedding
 SrcVal(c, j, i) ==
